@@ -35,6 +35,12 @@ UNIVERSE = {
             "ops": [("len", (2,)), ("len", (0,)), ("len", (1, ...)), ("len", (3, ...)), ("len", (..., 2)), ("len", (..., 1)),
                     ("len", (1, 3)), ("len", (0, ...)), ("len", (..., 0)), ("len", (0, 0)), ("alphabet", ("ab",)), ("alphabet", ("a",)), ("alphabet", ("",)), ("contains", ("",)), ("len", (1, 1)), ("len", (2, ...)), ("contains", ("a",)), ("contains", ("z",)),
                     ("regex", ("a",)), ("regex", ("^z",))]},
+    # characters that are special to str.format / %-formatting / regex inside values, alphabets, substrings and patterns
+    # (every DeclarationError message embeds the repr of the schema built so far)
+    "str#special": {"facade": "str", "values": [None, "abc", "a{b}", "{}", "%s"],
+                    "ops": [("alphabet", ("abc{}",)), ("alphabet", ("{0}ab%s",)), ("contains", ("zz",)), ("contains", ("{",)),
+                            ("contains", ("%s",)), ("contains", ("{x}",)), ("regex", ("a{2}",)), ("regex", ("^z",)),
+                            ("regex", ("^[{}%]",)), ("len", (3,)), ("len", (..., 2)), ("len", (9, ...))]},
     "list": {"values": [None, [schema.int, schema.str], [schema.int, ...], schema.int],
              "ops": [("len", (2,)), ("len", (1,)), ("len", (1, ...)), ("len", (3, ...)), ("len", (..., 2)), ("len", (..., 1)),
                      ("len", (0, 5)), ("len", (0, ...)), ("len", (0,)), ("len", (..., 0)), ("len", (0, 0))]},
@@ -74,8 +80,11 @@ def run(ctx):
     if not ok:
         ctx.breakage("translation", "guard extraction failed: " + msg)
     runner.prove(ctx, MODULE, THEOREMS, FILES)
+    from .. import limits
+    limits.huge_int_probe(ctx, "C11")
     cases = []
     for facade, u in UNIVERSE.items():
+        facade = u.get("facade", facade)
         for value in u["values"]:
             for k in (2, 3):
                 for combo in itertools.combinations(u["ops"], k):
